@@ -15,7 +15,7 @@ Extraction "model.ml"
   ap_of_ip cmp_int closer_than closer_cmp run_sset accept_knear run_knear kn_full kn_farthest
   benc addr_key srv_step srv_init srv_good srv_bad srv_num_good srv_exported srv_trav_filter
   sha1 crc32c crc_ip secure_node_id node_id_secure is_local_network mask_for_ip hash_tuple make_deterministic_node_id init_node_id accept_init_node_id run_secx8 mk_cfg init_panics
-  RunBep44.rb_mk_item RunBep44.rb_it_bv RunBep44.rb_it_k RunBep44.rb_it_salt RunBep44.rb_it_sig RunBep44.rb_it_cas RunBep44.rb_it_seq RunBep44.rb_it_created RunBep44.rb_is_mutable RunBep44.rb_buf RunBep44.rb_target RunBep44.rb_mtarget RunBep44.rb_check RunBep44.rb_checkin RunBep44.rb_s0 RunBep44.rb_sclock RunBep44.rb_sstore RunBep44.rb_swith_store RunBep44.rb_sadvance RunBep44.rb_sput RunBep44.rb_sget RunBep44.rb_swput RunBep44.rb_swget RunBep44.rb_slput RunBep44.rb_sfput RunBep44.rb_sfget RunBep44.rb_sfwput RunBep44.rb_sfwget RunBep44.rb_sflput RunBep44.rb_thread_put RunBep44.rb_thread_get RunBep44.rb_cinit RunBep44.rb_cstore RunBep44.rb_cwaiting RunBep44.rb_cstatus RunBep44.rb_caction RunBep44.rb_cstuck
+  RunBep44.rb_mk_item RunBep44.rb_it_bv RunBep44.rb_it_k RunBep44.rb_it_salt RunBep44.rb_it_sig RunBep44.rb_it_cas RunBep44.rb_it_seq RunBep44.rb_it_created RunBep44.rb_is_mutable RunBep44.rb_buf RunBep44.rb_target RunBep44.rb_mtarget RunBep44.rb_check RunBep44.rb_checkin RunBep44.rb_s0 RunBep44.rb_sclock RunBep44.rb_sstore RunBep44.rb_swith_store RunBep44.rb_sadvance RunBep44.rb_sput RunBep44.rb_sget RunBep44.rb_swput RunBep44.rb_swget RunBep44.rb_slput RunBep44.rb_sfput RunBep44.rb_sfget RunBep44.rb_sfwput RunBep44.rb_sfwget RunBep44.rb_sflput RunBep44.rb_zero_time RunBep44.rb_skput RunBep44.rb_skget RunBep44.rb_skwput RunBep44.rb_skwget RunBep44.rb_sklput RunBep44.rb_thread_put RunBep44.rb_thread_get RunBep44.rb_cinit RunBep44.rb_cstore RunBep44.rb_cwaiting RunBep44.rb_cstatus RunBep44.rb_caction RunBep44.rb_cstuck
   rt_init rt_mk_cfg rt_mk_resp rt_add rt_stop rt_complete rt_conc_begin rt_conc_succ rt_conc_finished rt_quiesce rt_erase rt_take_stall rt_stalled rt_accept_closest rt_started rt_out rt_unq_len rt_stopping rt_stopped rt_ctx rt_closest
   parse_value scan_value
   nodeaddr_marshal nodeaddr_unmarshal nodeinfo_marshal nodeinfo_unmarshal nodeinfo_unmarshal_pinned
